@@ -488,8 +488,6 @@ def rule_profile_diff(prop, ctx_repo_dev, repo_rel, ls_factory):
         else:
             R.ok(sample={"site": loc_of(b, bb), "fn": p, "kind": what, "visits_all_safe": s["proved"], "context": "callers" if own_root(p) in deferred else "own"} if R.discharged % 12 == 0 else None)
     # ---- debug_assert! panics
-    ls = ls_factory(repo)
-    from .convert import explore
     for kind, p, bb, what in dbg:
         R.instance()
         b = F.bodies[p]
@@ -501,13 +499,15 @@ def rule_profile_diff(prop, ctx_repo_dev, repo_rel, ls_factory):
                     sample={"site": loc_of(b, bb), "fn": p, "assumed": ASSUMED_DEBUG_ASSERTS[p][:80]})
             R.assume(key, ASSUMED_DEBUG_ASSERTS[p])
             continue
-        if ls.slice_param(b) is not None or ls.fixed_shape(b):
-            ex = explore(ls, b)
-            wit = [(k, o) for k, o in ex.items() if any(pn[1][0] == p and pn[1][1] == bb for pn in o.panics)]
+        cv = ls_factory(repo)
+        sp, kinds = cv.shape(b)
+        if sp is not None or any(k.startswith("array") for k in kinds):
+            ex = cv.explore(b)
+            wit = [(k, o) for k, o in ex.items() if any(pn[1] and pn[1][0] == p and pn[1][1] == bb for pn in o.panics)]
             if wit:
                 R.violation(key, "debug_assert! in %s fires for %d abstract input(s), e.g. (len, first byte) = %s: panic in debug, silently continues in release" % (p, len(wit), wit[0][0]), loc_of(b, bb), p)
             else:
-                unk = any(any(u[1][0] == p for u in o.unknown) for o in ex.values())
+                unk = any(o.unknown for o in ex.values())
                 R.check(not unk, key, "debug_assert! in %s could not be decided over the abstract input domain" % p, loc_of(b, bb), p, sample={"site": loc_of(b, bb), "never_fires": True})
         else:
             R.violation(key, "unclassified debug_assert! in %s: neither decidable over an abstract input domain nor a listed numerical self-check" % p, loc_of(b, bb), p)
@@ -518,23 +518,24 @@ def rule_profile_diff(prop, ctx_repo_dev, repo_rel, ls_factory):
 
 
 def lensim_discharges(repo, ls_factory, cache, b, bb):
-    """Is the assertion decided safe for every abstract input (length, first byte) of its own function?"""
-    from .convert import explore
-    if "ls" not in cache:
-        cache["ls"] = ls_factory(repo)
-    ls = cache["ls"]
-    if ls.slice_param(b) is None and not ls.fixed_shape(b):
-        return False
+    """Is the assertion decided safe for every abstract input (length, first byte) of its own function? (byte-provenance
+    abstract execution over the complete length partition; a fresh analysis per function so that sites are its own)"""
     p = b.rec["path"]
     if p not in cache:
-        cache[p] = explore(ls, b)
-    seen = False
-    for k, o in cache[p].items():
-        if (p, bb) in o.sites:
-            seen = True
-        if any(u[1][0] == p and u[1][1] == bb for u in o.unknown) or any(x[1][0] == p and x[1][1] == bb for x in o.panics):
-            return False
-    return seen
+        cv = ls_factory(repo)
+        sp, kinds = cv.shape(b)
+        if sp is None and not any(k.startswith("array") for k in kinds):
+            cache[p] = None
+        else:
+            ex = cv.explore(b)
+            cache[p] = (cv, ex)
+    if cache[p] is None:
+        return False
+    cv, ex = cache[p]
+    if any(o.unknown for o in ex.values()):
+        return False
+    rec = cv.sites.get((p, bb))
+    return bool(rec) and rec["ok"] > 0 and not rec["fail"] and not rec["unknown"]
 
 
 def ordinal(body, bb, kind):
@@ -637,7 +638,7 @@ def rule_int_total(prop, repo, entries):
         except FactsError as e:
             R.fail_closed("%s:int-total:%s" % (prop, path), str(e))
             continue
-        bad = [(k, s) for k, s in dom.sites.items() if s["fails"] or s["unknown"]]
+        bad = [(k, s) for k, byroot in dom.sites.items() for s in byroot.values() if s["fails"] or s["unknown"]]
         for (fn, bb), s in bad:
             fb = F.bodies.get(fn)
             R.violation("%s:int-total:%s→%s#%s" % (prop, path, fn, s["kind"]),
